@@ -1,6 +1,7 @@
 import HeimdallModel.Lemmas.Conc
 import HeimdallModel.Lemmas.ConcLive
 import HeimdallModel.Lemmas.ConcOwn
+import HeimdallModel.Lemmas.ConcLeak
 import HeimdallModel.Model.RepoProtocol
 import HeimdallModel.Gen.RepoProtocol
 import HeimdallModel.Model.Repo
@@ -9,7 +10,9 @@ import HeimdallModel.Model.Repo
 
 The statements quantify over every reachable configuration of the machine of `Model/Conc.lean`: any number of
 concurrently running writers (`AddRuleSet` / `UpdateRuleSet` / `DeleteRuleSet`) and readers (`FindRule`), every
-interleaving of their steps.  The machine runs the locking protocol that `/verif/extract/proto` reads off the
+interleaving of their steps — including executions in which any number of lookups panic during the search (a route
+matcher) and any number of changes panic while cloning or computing on the private clone; the panicking goroutine
+ends (it is recovered far above the repository), the process goes on.  The machine runs the locking protocol that `/verif/extract/proto` reads off the
 current `internal/rules/repository_impl.go` (`Gen/RepoProtocol.lean`, regenerated on every run): the first group
 of theorems are the obligations tying the two together.
 -/
@@ -27,84 +30,114 @@ theorem c07_protocol_mutexes : Gen.repoProtocolMutexes = ["$K", "$T"] := by deci
 touches the shared state: the four methods above are the only way to it -/
 theorem c07_protocol_no_foreign_access : Gen.repoProtocolForeign = [] := by decide
 
+/-- **The release discipline of the source is the deferred one**: the read lock of `FindRule` and `knownRulesMutex`
+of every writer method are released by a `defer` registered directly after the lock was taken, there is no explicit
+unlock of either.  Why this is demanded: `c07_explicit_runlock_deadlocks`, `c07_explicit_unlock_ends_all_changes`. -/
+theorem c07_discipline : disciplineOf Gen.repoProtocol = Discipline.deferred := by decide
+
 /-- the transitions of the machine, read as source-level events, are that protocol -/
 theorem c07_edges_are_protocol : edgesAsProtocol = writerProtocol ∧ readerEdgesAsProtocol = readerProtocol := by
   decide
 
 /-- every step moves the stepping writer along an edge of `writerEdges`, keeps its operation, and leaves every
 other thread alone -/
-theorem c07_step_follows_edges {K T Op Req Ans : Type} (s : Seq K T Op Req Ans) (c c' : Config K T Op Req Ans)
-    (h : Step s c c') (i : Nat) (op : Op) (pc : WPc) (loc : K × T) (hi : c.threads i = .writer op pc loc) :
+theorem c07_step_follows_edges {K T Op Req Ans : Type} (d : Discipline) (s : Seq K T Op Req Ans)
+    (c c' : Config K T Op Req Ans) (h : Step d s c c') (i : Nat) (op : Op) (pc : WPc) (loc : K × T) (hi : c.threads i = .writer op pc loc) :
     ∃ pc' loc', c'.threads i = .writer op pc' loc' ∧ (pc' = pc ∨ ∃ ev, (pc, ev, pc') ∈ writerEdges) := by
   have key : ∀ (j : Nat) (t : Thread K T Op Req Ans), j ≠ i →
       ∃ pc' loc', upd c.threads j t i = .writer op pc' loc' ∧ (pc' = pc ∨ ∃ ev, (pc, ev, pc') ∈ writerEdges) := by
     intro j t hj
     exact ⟨pc, loc, by rw [upd_other _ _ _ _ (Ne.symm hj), hi], Or.inl rfl⟩
   cases h with
-  | wLock j op' loc' h free =>
+  | wLock _ j op' loc' h free =>
     by_cases e : j = i
     · subst e; rw [hi] at h; cases h
       exact ⟨_, _, upd_same _ _ _, Or.inr ⟨AEv.lockK, by decide⟩⟩
     · exact key j _ e
-  | wReadKnown j op' loc' h hl =>
+  | wReadKnown _ j op' loc' h hl =>
     by_cases e : j = i
     · subst e; rw [hi] at h; cases h
       exact ⟨_, _, upd_same _ _ _, Or.inr ⟨AEv.readKnown, by decide⟩⟩
     · exact key j _ e
-  | wClone j op' loc' h hl =>
+  | wClone _ j op' loc' h hl =>
     by_cases e : j = i
     · subst e; rw [hi] at h; cases h
       exact ⟨_, _, upd_same _ _ _, Or.inr ⟨AEv.cloneIndex, by decide⟩⟩
     · exact key j _ e
-  | wComputeOk j op' loc' st' h hl ha =>
+  | wComputeOk _ j op' loc' st' h hl ha =>
     by_cases e : j = i
     · subst e; rw [hi] at h; cases h
       exact ⟨_, _, upd_same _ _ _, Or.inr ⟨AEv.compute, by decide⟩⟩
     · exact key j _ e
-  | wComputeErr j op' loc' h hl ha =>
+  | wComputeErr _ j op' loc' h hl ha =>
     by_cases e : j = i
     · subst e; rw [hi] at h; cases h
       exact ⟨_, _, upd_same _ _ _, Or.inr ⟨AEv.returnErr, by decide⟩⟩
     · exact key j _ e
-  | wFail j op' loc' h hl =>
+  | wFail _ j op' loc' h hl =>
     by_cases e : j = i
     · subst e; rw [hi] at h; cases h
       exact ⟨_, _, upd_same _ _ _, Or.inr ⟨AEv.unlockK, by decide⟩⟩
     · exact key j _ e
-  | wKnown j op' st' h hl =>
+  | wKnown _ j op' st' h hl =>
     by_cases e : j = i
     · subst e; rw [hi] at h; cases h
       exact ⟨_, _, upd_same _ _ _, Or.inr ⟨AEv.writeKnown, by decide⟩⟩
     · exact key j _ e
-  | wRWLock j op' st' h free nor =>
+  | wRWRequest _ j op' st' h free =>
     by_cases e : j = i
     · subst e; rw [hi] at h; cases h
       exact ⟨_, _, upd_same _ _ _, Or.inr ⟨AEv.lockT, by decide⟩⟩
     · exact key j _ e
-  | wIndex j op' st' h hl =>
+  | wRWAcquire _ j op' st' h hl nor =>
+    by_cases e : j = i
+    · subst e; rw [hi] at h; cases h
+      exact ⟨_, _, upd_same _ _ _, Or.inr ⟨AEv.acquireT, by decide⟩⟩
+    · exact key j _ e
+  | wPanicReleased hd _ j op' pc' loc' h hpc hl =>
+    by_cases e : j = i
+    · subst e; rw [hi] at h; cases h
+      refine ⟨_, _, upd_same _ _ _, Or.inr ⟨AEv.panic, ?_⟩⟩
+      rcases hpc with rfl | rfl <;> decide
+    · exact key j _ e
+  | wPanicLeaked hd _ j op' pc' loc' h hpc hl =>
+    by_cases e : j = i
+    · subst e; rw [hi] at h; cases h
+      refine ⟨_, _, upd_same _ _ _, Or.inr ⟨AEv.panic, ?_⟩⟩
+      rcases hpc with rfl | rfl <;> decide
+    · exact key j _ e
+  | rPanicReleased hd _ j rq st h =>
+    by_cases e : j = i
+    · subst e; rw [hi] at h; cases h
+    · exact key j _ e
+  | rPanicLeaked hd _ j rq st h =>
+    by_cases e : j = i
+    · subst e; rw [hi] at h; cases h
+    · exact key j _ e
+  | wIndex _ j op' st' h hl =>
     by_cases e : j = i
     · subst e; rw [hi] at h; cases h
       exact ⟨_, _, upd_same _ _ _, Or.inr ⟨AEv.writeIndex, by decide⟩⟩
     · exact key j _ e
-  | wRWUnlock j op' st' h hl =>
+  | wRWUnlock _ j op' st' h hl =>
     by_cases e : j = i
     · subst e; rw [hi] at h; cases h
       exact ⟨_, _, upd_same _ _ _, Or.inr ⟨AEv.unlockT, by decide⟩⟩
     · exact key j _ e
-  | wUnlock j op' st' h hl =>
+  | wUnlock _ j op' st' h hl =>
     by_cases e : j = i
     · subst e; rw [hi] at h; cases h
       exact ⟨_, _, upd_same _ _ _, Or.inr ⟨AEv.unlockK, by decide⟩⟩
     · exact key j _ e
-  | rLock j rq h free =>
+  | rLock _ j rq h free =>
     by_cases e : j = i
     · subst e; rw [hi] at h; cases h
     · exact key j _ e
-  | rSearch j rq st h =>
+  | rSearch _ j rq st h =>
     by_cases e : j = i
     · subst e; rw [hi] at h; cases h
     · exact key j _ e
-  | rUnlock j rq a st n h =>
+  | rUnlock _ j rq a st n h =>
     by_cases e : j = i
     · subst e; rw [hi] at h; cases h
     · exact key j _ e
@@ -116,20 +149,20 @@ variable {K T Op Req Ans : Type} (s : Seq K T Op Req Ans)
 /-- **Atomic snapshot.** Whatever a concurrent lookup answers is the answer of the sequential lookup in the index
 reached by a *prefix of the commit order*: complete changes only, never a partially applied one; and that prefix
 contains every change that was committed before the lookup took the read lock. -/
-theorem c07_snapshot (c : Config K T Op Req Ans) (hr : Reachable s c) (j : Nat) (rq : Req) (pc : RPc) (a : Ans)
+theorem c07_snapshot (c : Config K T Op Req Ans) (hr : Reachable .deferred s c) (j : Nat) (rq : Req) (pc : RPc) (a : Ans)
     (start n : Nat) (h : c.threads j = .reader rq pc (some a) start n) :
     start ≤ n ∧ n ≤ c.log.length ∧ a = s.look (run s (c.log.take n)).2 rq :=
   (inv_reachable s c hr).answers j rq pc a start n h
 
 /-- **The published index is the sequential result of the committed changes**, in commit order: no change is lost
 or half overwritten, whatever the interleaving of writers from different providers. -/
-theorem c07_index_sequential (c : Config K T Op Req Ans) (hr : Reachable s c) :
+theorem c07_index_sequential (c : Config K T Op Req Ans) (hr : Reachable .deferred s c) :
     c.index = (run s c.log).2 ∧ (c.wlock = none → (c.known, c.index) = run s c.log) :=
   ⟨(inv_reachable s c hr).index, (inv_reachable s c hr).free⟩
 
 /-- **Writers exclude each other** for the whole read-compute-publish section: a writer that is between taking and
 releasing `knownRulesMutex` is the holder of that mutex. -/
-theorem c07_writers_exclusive (c : Config K T Op Req Ans) (hr : Reachable s c) (i j : Nat)
+theorem c07_writers_exclusive (c : Config K T Op Req Ans) (hr : Reachable .deferred s c) (i j : Nat)
     (hi : inCS (c.threads i)) (hj : inCS (c.threads j)) : i = j := by
   have h1 := holder_of_inCS s c (inv_reachable s c hr) i hi
   have h2 := holder_of_inCS s c (inv_reachable s c hr) j hj
@@ -137,7 +170,7 @@ theorem c07_writers_exclusive (c : Config K T Op Req Ans) (hr : Reachable s c) (
 
 /-- **The holder computes on the current state**: the change a writer is about to publish is the sequential
 application of its operation to the state after all changes committed so far (no lost update). -/
-theorem c07_no_lost_update (c : Config K T Op Req Ans) (hr : Reachable s c) (i : Nat) (op : Op) (st' : K × T)
+theorem c07_no_lost_update (c : Config K T Op Req Ans) (hr : Reachable .deferred s c) (i : Nat) (op : Op) (st' : K × T)
     (h : c.threads i = .writer op .rwHeld st') : s.apply (run s c.log) op = some st' := by
   have hinv := inv_reachable s c hr
   have hl := holder_of_inCS s c hinv i (by rw [h]; simp [inCS])
@@ -148,7 +181,7 @@ theorem c07_no_lost_update (c : Config K T Op Req Ans) (hr : Reachable s c) (i :
 /-- **A rejection is justified by the sequential semantics**: a writer that is about to report failure computed on
 the state after all changes committed so far, and the sequential repository rejects its operation in that state —
 no change is refused because of a stale or half-updated view. -/
-theorem c07_rejection_justified (c : Config K T Op Req Ans) (hr : Reachable s c) (i : Nat) (op : Op) (loc : K × T)
+theorem c07_rejection_justified (c : Config K T Op Req Ans) (hr : Reachable .deferred s c) (i : Nat) (op : Op) (loc : K × T)
     (h : c.threads i = .writer op .failed loc) :
     s.apply (run s c.log) op = none ∧ (c.known, c.index) = run s c.log := by
   have hinv := inv_reachable s c hr
@@ -160,7 +193,7 @@ theorem c07_rejection_justified (c : Config K T Op Req Ans) (hr : Reachable s c)
 /-- **No conflicting access to the shared state** (the model-level content of "no data race"): a writer inside the
 section in which the known rules and the pointer to the index are read and written is the only such writer, and the
 pointer is swapped only while no lookup is inside its read section. -/
-theorem c07_no_conflicting_access (c : Config K T Op Req Ans) (hr : Reachable s c) (i j : Nat) :
+theorem c07_no_conflicting_access (c : Config K T Op Req Ans) (hr : Reachable .deferred s c) (i j : Nat) :
     (inCS (c.threads i) → inCS (c.threads j) → i = j) ∧
       (rwHolder (c.threads i) → ¬ activeReader (c.threads j)) := by
   refine ⟨fun hi hj => ?_, fun hi hj => ?_⟩
@@ -168,8 +201,7 @@ theorem c07_no_conflicting_access (c : Config K T Op Req Ans) (hr : Reachable s 
     have h2 := holder_of_inCS s c (inv_reachable s c hr) j hj
     rw [h1] at h2; exact Option.some.inj h2
   · have hl := linv_reachable s c hr
-    have h1 := (hl.rww_iff i).mpr hi
-    have h2 := hl.rw_excl (by rw [h1]; simp)
+    have h2 := hl.rw_excl i hi
     have h3 := (hl.rd_mem j).mpr hj
     rw [h2] at h3; cases h3
 
@@ -177,24 +209,167 @@ theorem c07_no_conflicting_access (c : Config K T Op Req Ans) (hr : Reachable s 
 that have published their change, each once, in commit order (`owners` lists the committing threads without
 repetition; a thread is listed iff it got as far as publishing; the k-th log entry is the operation of the k-th
 owner) — together with `c07_index_sequential`: the published index is the sequential result of all of them. -/
-theorem c07_every_change_exactly_once (c : Config K T Op Req Ans) (hr : Reachable s c) :
+theorem c07_every_change_exactly_once (d : Discipline) (c : Config K T Op Req Ans) (hr : Reachable d s c) :
     c.owners.Nodup ∧ (∀ j, j ∈ c.owners ↔ committed (c.threads j)) ∧
       c.owners.map (fun j => opOf (c.threads j)) = c.log.map some :=
-  ⟨(oinv_reachable s c hr).nodup, (oinv_reachable s c hr).mem, (oinv_reachable s c hr).ops⟩
+  ⟨(oinv_reachable d s c hr).nodup, (oinv_reachable d s c hr).mem, (oinv_reachable d s c hr).ops⟩
 
-/-- **Deadlock freedom.** In every reachable configuration in which some thread (writer or reader) has not finished,
-some thread can take a step: no interleaving of requests and changes gets stuck. -/
-theorem c07_deadlock_free (c : Config K T Op Req Ans) (hr : Reachable s c) (i : Nat)
-    (hnf : ¬ finished (c.threads i)) : ∃ c', Step s c c' :=
+/-- **Deadlock freedom, panics included.** In every reachable configuration in which some thread (writer or reader)
+has not finished, some thread can take a step: no interleaving of requests and changes gets stuck — whatever number of
+lookups have panicked during their search and whatever number of changes have panicked on their private clone before
+(`Step` contains these transitions for any reader and any writer at any time; under the deferred discipline the
+unwinding panic releases what the goroutine holds).  A writer waiting in `rulesTreeMutex.Lock()` blocks new readers
+(Go's writer preference, `wRWRequest`); the readers it waits for can always move on. -/
+theorem c07_deadlock_free (c : Config K T Op Req Ans) (hr : Reachable .deferred s c) (i : Nat)
+    (hnf : ¬ finished (c.threads i)) : ∃ c', Step .deferred s c c' :=
   progress s c (inv_reachable s c hr) (linv_reachable s c hr) i hnf
+
+/-- the same for the machine run with the discipline read off the current source -/
+theorem c07_deadlock_free_source (c : Config K T Op Req Ans) (hr : Reachable (disciplineOf Gen.repoProtocol) s c)
+    (i : Nat) (hnf : ¬ finished (c.threads i)) : ∃ c', Step (disciplineOf Gen.repoProtocol) s c c' := by
+  rw [c07_discipline] at hr ⊢
+  exact c07_deadlock_free s c hr i hnf
+
+/-- **A goroutine that has returned or panicked holds nothing**: neither `knownRulesMutex`, nor `rulesTreeMutex` as
+a (pending) writer, nor a read lock — and every read lock that is counted belongs to a lookup that is still running. -/
+theorem c07_finished_holds_nothing (c : Config K T Op Req Ans) (hr : Reachable .deferred s c) (i : Nat)
+    (hf : finished (c.threads i)) :
+    c.wlock ≠ some i ∧ c.rww ≠ some i ∧ i ∉ c.rset ∧ c.readers = c.rset.length := by
+  have hi := inv_reachable s c hr
+  have hl := linv_reachable s c hr
+  refine ⟨fun h => ?_, fun h => ?_, fun h => ?_, hl.rd_len⟩
+  · have hh := hi.held i h
+    cases ht : c.threads i with
+    | reader rq pc a st n => rw [ht] at hh; simp [holderOk] at hh
+    | writer op pc loc =>
+      rw [ht] at hh hf
+      simp only [finished] at hf
+      rcases hf with rfl | rfl | rfl <;> simp [holderOk] at hh
+  · have hh := (hl.rww_iff i).mp h
+    cases ht : c.threads i with
+    | reader rq pc a st n => rw [ht] at hh; simp [rwOwner] at hh
+    | writer op pc loc =>
+      rw [ht] at hh hf
+      simp only [finished] at hf
+      rcases hf with rfl | rfl | rfl <;> simp [rwOwner] at hh
+  · have hh := (hl.rd_mem i).mp h
+    cases ht : c.threads i with
+    | writer op pc loc => rw [ht] at hh; simp [activeReader] at hh
+    | reader rq pc a st n =>
+      rw [ht] at hh hf
+      simp only [finished] at hf
+      rcases hf with rfl | rfl <;> simp [activeReader] at hh
+
+/-! ### Why the unlocks have to be deferred -/
+
+/-- **With an explicit `RUnlock()` after the search, one panicking lookup followed by one change is a complete
+deadlock.**  For every discipline with `readerDeferred = false` and every initial configuration — any number of other
+threads — with a reader `r` and a writer `w` whose change the sequential repository accepts, a configuration is
+reachable (`r`: read-lock, search panics; `w`: up to `rulesTreeMutex.Lock()`) in which
+* no thread can take a step, now or ever (`Steps … c c' → c' = c`): `w` waits for a read lock nobody will release
+  while holding `knownRulesMutex`, so no writer ever completes; a writer is pending, so no reader that has not yet
+  started ever completes;
+* the writer `w` has not finished, every thread other than `r` and `w` still stands at its start, nothing was committed. -/
+theorem c07_explicit_runlock_deadlocks (d : Discipline) (hd : d.readerDeferred = false)
+    (c0 : Config K T Op Req Ans) (h0 : Initial s c0) (r w : Nat) (rq : Req) (op : Op) (loc st' : K × T)
+    (hr : c0.threads r = .reader rq .idle none 0 0) (hw : c0.threads w = .writer op .idle loc)
+    (happ : s.apply s.init op = some st') :
+    ∃ c, Reachable d s c ∧ (∀ c', ¬ Step d s c c') ∧ (∀ c', Steps d s c c' → c' = c) ∧
+      ¬ finished (c.threads w) ∧ c.log = [] ∧
+      (∀ j, j ≠ w → j ≠ r → ¬ finished (c.threads j)) := by
+  obtain ⟨c, hreach, hwedged, hcr, hlog, hsame⟩ := reader_leak_wedges d hd s c0 h0 r w rq op loc st' hr hw happ
+  refine ⟨c, hreach, fun c' => wedged_stuck d s c c' w hwedged, fun c' => wedged_steps d s c c' w hwedged, ?_, hlog, ?_⟩
+  · obtain ⟨o, st, e⟩ := hwedged.tw
+    rw [e]; simp [finished]
+  · intro j hjw hjr hf
+    -- threads other than r and w have not moved: they are at their start
+    rw [hsame j hjw hjr] at hf
+    rcases h0.2.2.2.2.2.2.2 j with ⟨o, l, e⟩ | ⟨q, e⟩ <;> (rw [e] at hf; simp [finished] at hf)
+
+/-- **With an explicit `Unlock()` of `knownRulesMutex`, one panicking change ends all changes.**  For every discipline
+with `writerDeferred = false` and every initial configuration with a writer `w`, a configuration is reachable (`w`:
+lock, read the known rules, `Clone()` panics) from which, along every continuation, no writer thread ever takes a step
+again — in particular every other change waits for ever — and nothing is ever committed. -/
+theorem c07_explicit_unlock_ends_all_changes (d : Discipline) (hd : d.writerDeferred = false)
+    (c0 : Config K T Op Req Ans) (h0 : Initial s c0) (w : Nat) (op : Op) (loc : K × T)
+    (hw : c0.threads w = .writer op .idle loc) :
+    ∃ c, Reachable d s c ∧ ∀ c', Steps d s c c' → c'.log = [] ∧
+      ∀ j op' loc', j ≠ w → c0.threads j = .writer op' .idle loc' → c'.threads j = .writer op' .idle loc' := by
+  obtain ⟨c, hreach, hk, hlog, hsame⟩ := writer_leak_blocks d hd s c0 h0 w op loc hw
+  refine ⟨c, hreach, fun c' hs => ?_⟩
+  obtain ⟨_, hl, hthr⟩ := kleaked_steps d s c c' w hk hs
+  refine ⟨by rw [hl, hlog], fun j op' loc' hj h0j => ?_⟩
+  have hcj : c.threads j = .writer op' .idle loc' := by rw [hsame j hj]; exact h0j
+  rw [hthr j op' .idle loc' hcj, hcj]
+
+/-! ### Non-vacuity: a concrete machine with one lookup (thread 0) and changes (every other thread) -/
+
+/-- a tiny sequential semantics: known rules and index count what the accepted changes added -/
+def tinySeq : Seq Nat Nat Nat Unit Nat where
+  apply st op := some (st.1 + op, st.2 + op)
+  look t _ := t
+  init := (0, 0)
+
+def tinyInit : Config Nat Nat Nat Unit Nat :=
+  { known := 0, index := 0, wlock := none, rww := none, readers := 0, log := [], owners := [], rset := [],
+    threads := fun i => if i = 0 then .reader () .idle none 0 0 else .writer 1 .idle (0, 0) }
+
+theorem c07_tiny_initial : Initial tinySeq tinyInit := by
+  refine ⟨rfl, rfl, rfl, rfl, rfl, rfl, rfl, fun i => ?_⟩
+  by_cases e : i = 0
+  · exact Or.inr ⟨(), by simp [tinyInit, e]⟩
+  · exact Or.inl ⟨1, (0, 0), by simp [tinyInit, e]⟩
+
+/-- the hypotheses of `c07_explicit_runlock_deadlocks` are satisfiable: explicit `RUnlock()`, lookup 0 panics,
+change 1 follows — nothing moves any more although change 1 (and every other change) has not finished -/
+example : ∃ c, Reachable ⟨false, true⟩ tinySeq c ∧ (∀ c', ¬ Step ⟨false, true⟩ tinySeq c c') ∧
+    ¬ finished (c.threads 1) ∧ ¬ finished (c.threads 2) := by
+  obtain ⟨c, h1, h2, _, h4, _, h6⟩ := c07_explicit_runlock_deadlocks tinySeq ⟨false, true⟩ rfl tinyInit c07_tiny_initial
+    0 1 () 1 (0, 0) (1, 1) rfl rfl rfl
+  exact ⟨c, h1, h2, h4, h6 2 (by decide) (by decide)⟩
+
+/-- the hypotheses of `c07_explicit_unlock_ends_all_changes` are satisfiable: explicit `Unlock()`, change 1 panics —
+change 2 stands at its start for ever -/
+example : ∃ c, Reachable ⟨true, false⟩ tinySeq c ∧
+    ∀ c', Steps ⟨true, false⟩ tinySeq c c' → c'.log = [] ∧ c'.threads 2 = .writer 1 .idle (0, 0) := by
+  obtain ⟨c, h1, h2⟩ := c07_explicit_unlock_ends_all_changes tinySeq ⟨true, false⟩ rfl tinyInit c07_tiny_initial
+    1 1 (0, 0) rfl
+  exact ⟨c, h1, fun c' hs => ⟨(h2 c' hs).1, (h2 c' hs).2 2 1 (0, 0) (by decide) rfl⟩⟩
+
+/-- the deferred discipline on the same machine: lookup 0 panics during its search (the executions the theorems above
+quantify over do contain panicking lookups), the read lock is released, and change 1 runs to completion and is
+committed -/
+example : ∃ c, Reachable .deferred tinySeq c ∧ c.threads 0 = .reader () .crashed none 0 0 ∧
+    c.threads 1 = .writer 1 .doneOk (1, 1) ∧ c.log = [1] ∧ c.index = 1 ∧ c.readers = 0 ∧ c.wlock = none := by
+  have R0 := Reachable.init (d := .deferred) tinyInit c07_tiny_initial
+  have R1 := Reachable.step _ _ R0 (Step.rLock _ 0 () (by simp [tinyInit]) rfl)
+  have R2 := Reachable.step _ _ R1 (Step.rPanicReleased rfl _ 0 () 0 (by simp [tinyInit]))
+  have R3 := Reachable.step _ _ R2 (Step.wLock _ 1 1 (0, 0) (by simp [tinyInit, upd]) rfl)
+  have R4 := Reachable.step _ _ R3 (Step.wReadKnown _ 1 1 (0, 0) (by simp) rfl)
+  have R5 := Reachable.step _ _ R4 (Step.wClone _ 1 1 (0, 0) (by simp [tinyInit]) rfl)
+  have R6 := Reachable.step _ _ R5 (Step.wComputeOk _ 1 1 (0, 0) (1, 1) (by simp [tinyInit]) rfl rfl)
+  have R7 := Reachable.step _ _ R6 (Step.wKnown _ 1 1 (1, 1) (by simp) rfl)
+  have R8 := Reachable.step _ _ R7 (Step.wRWRequest _ 1 1 (1, 1) (by simp) rfl)
+  have R9 := Reachable.step _ _ R8 (Step.wRWAcquire _ 1 1 (1, 1) (by simp) rfl (by simp [tinyInit]))
+  have R10 := Reachable.step _ _ R9 (Step.wIndex _ 1 1 (1, 1) (by simp) rfl)
+  have R11 := Reachable.step _ _ R10 (Step.wRWUnlock _ 1 1 (1, 1) (by simp) rfl)
+  have R12 := Reachable.step _ _ R11 (Step.wUnlock _ 1 1 (1, 1) (by simp) rfl)
+  exact ⟨_, R12, by simp [upd], by simp, by simp [tinyInit], rfl, by simp [tinyInit], rfl⟩
+
+/-- `c07_deadlock_free` at a configuration with a crashed lookup: after the panic of lookup 0 the next change can start -/
+example : ∃ c, Reachable .deferred tinySeq c ∧ c.threads 0 = .reader () .crashed none 0 0 ∧
+    ∃ c', Step .deferred tinySeq c c' := by
+  have R0 := Reachable.init (d := .deferred) tinyInit c07_tiny_initial
+  have R1 := Reachable.step _ _ R0 (Step.rLock _ 0 () (by simp [tinyInit]) rfl)
+  have R2 := Reachable.step _ _ R1 (Step.rPanicReleased rfl _ 0 () 0 (by simp [tinyInit]))
+  exact ⟨_, R2, by simp [tinyInit], c07_deadlock_free tinySeq _ R2 1 (by simp [tinyInit, upd, finished])⟩
 
 /-- **Readers and the publishing writer exclude each other**: while a writer holds `rulesTreeMutex` no lookup is
 inside its read section, so a lookup never observes the pointer swap half-way. -/
-theorem c07_swap_excludes_readers (c : Config K T Op Req Ans) (hr : Reachable s c) (i j : Nat)
+theorem c07_swap_excludes_readers (c : Config K T Op Req Ans) (hr : Reachable .deferred s c) (i j : Nat)
     (hi : rwHolder (c.threads i)) (hj : activeReader (c.threads j)) : False := by
   have hl := linv_reachable s c hr
-  have h1 := (hl.rww_iff i).mpr hi
-  have h2 := hl.rw_excl (by rw [h1]; simp)
+  have h2 := hl.rw_excl i hi
   have h3 := (hl.rd_mem j).mpr hj
   rw [h2] at h3; cases h3
 
@@ -226,7 +401,7 @@ theorem run_repoSeq (ops : List RepoOp) : run repoSeq ops = ((Repo.run ops).know
 /-- **C07 for the repository**: every answer given to a concurrent request is what the *sequential* repository
 (the model of C06) answers after some prefix of the committed rule-set changes -/
 theorem c07_repository_snapshot (c : Config (List Rule) (Table RVal) RepoOp (Bool × ReqView) Served)
-    (hr : Reachable repoSeq c) (j : Nat) (d : Bool) (q : ReqView) (pc : RPc) (a : Served) (start n : Nat)
+    (hr : Reachable .deferred repoSeq c) (j : Nat) (d : Bool) (q : ReqView) (pc : RPc) (a : Served) (start n : Nat)
     (h : c.threads j = .reader (d, q) pc (some a) start n) :
     start ≤ n ∧ n ≤ c.log.length ∧ a = (Repo.run (c.log.take n)).serve d q := by
   obtain ⟨h1, h2, h3⟩ := c07_snapshot repoSeq c hr j (d, q) pc a start n h
